@@ -9,6 +9,9 @@ import (
 	"go/ast"
 	"go/parser"
 	"go/token"
+	"hash/adler32"
+	"hash/crc32"
+	"hash/fnv"
 	"os"
 	"path/filepath"
 	"sort"
@@ -19,6 +22,61 @@ import (
 var standard = []string{
 	" ", "\t", "\r\n", "\n", " \t\r\n", "  ", "\x00", "\x00\x00\x00\x00", "\xef\xbb\xbf", "\xff\xfe", "\xfe\xff",
 	"\x7f", "\x80", "\xc2\xa0", "\xe2\x80\xa8", "%s", "%!", "%d%n", "\\", "\"", "'", "0", "-1", "a", "A", "@", "/", "..", "\x1b[",
+	".", ":", "+", "_", "~", "%", "\x01", "\x1b",
+	// characters that text-sanitising code removes or rewrites: bidirectional controls, zero-width characters, a combining mark
+	"\u200e", "\u200f", "\u202a", "\u202e", "\u2066", "\u2069", "\u061c", "\u200b", "\u200d", "\u0301",
+	// characters whose upper- or lower-case form has another length in UTF-8
+	"\u212a", "\u0130", "\u1e9e", "\u00df", "\u017f", "\u212b", "\u0131",
+}
+
+// Suffixes are multi-octet UTF-8 characters cut short: what a text ends with when it was truncated, and
+// what a scanner that looks ahead after a lead octet must not run past.
+func Suffixes() [][]byte {
+	var out [][]byte
+	for _, lead := range []byte{0xC2, 0xC3, 0xE0, 0xE1, 0xE2, 0xE3, 0xED, 0xEF, 0xF0, 0xF4} {
+		out = append(out, []byte{lead})
+		if lead >= 0xE0 {
+			for _, second := range []byte{0x80, 0x81, 0x9F, 0xA0, 0xBF} {
+				out = append(out, []byte{lead, second})
+			}
+		}
+		if lead >= 0xF0 {
+			out = append(out, []byte{lead, 0x9F, 0x98})
+		}
+	}
+	return out
+}
+
+// Collisions returns pairs of different texts of equal length that collide under the non-cryptographic
+// 32-bit hashes of the standard library (what a cache or an interning table keyed by a hash would confuse).
+func Collisions() [][2]string {
+	type hf struct {
+		name string
+		f    func([]byte) uint32
+	}
+	hs := []hf{
+		{"fnv32", func(b []byte) uint32 { h := fnv.New32(); h.Write(b); return h.Sum32() }},
+		{"fnv32a", func(b []byte) uint32 { h := fnv.New32a(); h.Write(b); return h.Sum32() }},
+		{"crc32", func(b []byte) uint32 { return crc32.ChecksumIEEE(b) }},
+		{"crc32c", func(b []byte) uint32 { return crc32.Checksum(b, crc32.MakeTable(crc32.Castagnoli)) }},
+		{"adler32", func(b []byte) uint32 { return adler32.Checksum(b) }},
+	}
+	var out [][2]string
+	for _, h := range hs {
+		seen := map[uint32]string{}
+		for i := 0; i < 1500000; i++ {
+			// eight varying characters (a multiplicative hash is nearly injective on texts that differ in few places)
+			x := uint64(i)*0x9E3779B97F4A7C15 + 0x1234567
+			t := "u" + strconv.FormatUint(x>>24|1<<39, 36) + "@example.org"
+			k := h.f([]byte(t))
+			if o, ok := seen[k]; ok && len(o) == len(t) {
+				out = append(out, [2]string{o, t})
+				break
+			}
+			seen[k] = t
+		}
+	}
+	return out
 }
 
 // Load returns the tokens (at most 8 octets each), sorted, without duplicates.
@@ -44,6 +102,27 @@ func Load(repo string) [][]byte {
 				if x.Kind == token.STRING || x.Kind == token.CHAR {
 					if s, err := strconv.Unquote(x.Value); err == nil && len(s) >= 1 && len(s) <= 8 {
 						seen[s] = true
+					}
+				}
+				// an integer constant of more than one octet may be a packed identifier or a magic word:
+				// both byte orders
+				if x.Kind == token.INT {
+					if v, err := strconv.ParseUint(strings.ReplaceAll(x.Value, "_", ""), 0, 64); err == nil && v > 0xFF {
+						n := 2
+						if v > 0xFFFF {
+							n = 4
+						}
+						if v > 0xFFFFFFFF {
+							n = 8
+						}
+						be := make([]byte, n)
+						le := make([]byte, n)
+						for i := 0; i < n; i++ {
+							be[n-1-i] = byte(v >> uint(8*i))
+							le[i] = byte(v >> uint(8*i))
+						}
+						seen[string(be)] = true
+						seen[string(le)] = true
 					}
 				}
 			case *ast.CompositeLit:
